@@ -522,6 +522,10 @@ theorem cli_rejects_other_taxa (refFile bootFile : List (Item T)) (r : T)
   rw [cli_reads_files fbp refFile bootFile hr hb hne, cli_reads_files tbe refFile bootFile hr hb hne, href]
   exact ⟨e1, e2⟩
 
+/-- Outside TBE's precondition — a reference that was never indexed: the call fails on the first
+    bootstrap tree (it neither panics nor annotates nothing in silence); run as a session flavour. -/
+theorem tbe_not_indexed_err (r b : T) (bs : List T) : tbeNotIndexed r (b :: bs) = .err := rfl
+
 /-! ## the thread count -/
 
 /-- With at least one thread the configured functions are the functions of the theorems above
